@@ -125,3 +125,31 @@ def r_C12c(root):
             out.append(Finding("C12", "C12.c", R, q, ast.unparse(e), "an empty fixed name ('' ~ x) is treated like no fixed name: it is dropped when printing / ignored when evaluating", witness="''~packages"))
     if inst == 0: raise AnalysisError("RRELNavigation: no use of fixed_name found")
     return inst, out
+# ---------------------------------------------------------------------------------------------------------------
+RESOLVERS = {"scope_provider": None, "_find_obj_fqn": None, "find_obj": None, "_inner_resolve_link_rule_ref": None, "_find_referenced_obj": None, "lookup": 0, "find": None, "find_object_with_path": 0, "default_scope": None}
+SITES = {   # (file, function) -> (property, clause)
+    (P, "FQN.__call__._find_referenced_obj"): ("C10", "C10.d"), (P, "FQN.__call__._find_obj_fqn"): ("C10", "C10.d"), (P, "FQN.__call__._find_obj_fqn.find_obj"): ("C10", "C10.d"),
+    (P, "ImportURI.__call__"): ("C17", "C17.e"), (P, "PlainName.__call__._inner_resolve_link_rule_ref"): ("C07", "C07.c"),
+    (R, "RRELNavigation.apply"): ("C11", "C11.c"), (R, "find_object_with_path"): ("C11", "C11.c"), (R, "find"): ("C11", "C11.c"),
+}
+def r_none_tests(root):
+    """a value returned by a resolver ('None or the found object') is tested with `is None` / `is not None`, never for truth:
+    a found object may be falsy (user class with __len__/__bool__, a match-rule value 0 or '')"""
+    out = []; inst = 0
+    for (rel, q), (prop, clause) in SITES.items():
+        fn = find(load(root, rel), q)
+        rv = {}
+        for n in own_nodes(fn):
+            if isinstance(n, ast.Assign) and isinstance(n.value, ast.Call) and callee_name(n.value) in RESOLVERS:
+                idx = RESOLVERS[callee_name(n.value)]
+                for tg in n.targets:
+                    if isinstance(tg, ast.Name) and idx is None: rv[tg.id] = callee_name(n.value)
+                    elif isinstance(tg, (ast.Tuple, ast.List)) and idx is not None and isinstance(tg.elts[idx], ast.Name): rv[tg.elts[idx].id] = callee_name(n.value)
+        for var, src in sorted(rv.items()):
+            inst += 1
+            bad = truth_uses(fn, lambda e: isinstance(e, ast.Name) and e.id == var)
+            ob(prop, clause, rel, q, "result of %s() bound to %s: tested by None-test" % (src, var), not bad)
+            for e in bad:
+                out.append(Finding(prop, clause, rel, q, "truth test of %s (= %s(...))" % (var, src), "a found object is treated as 'not found' when it is falsy (user class defining __len__ or __bool__): the search goes on in outer scopes / other models and the reference binds elsewhere or fails", witness="user class Package with __len__ counting its (zero) children"))
+    if inst < 5: raise AnalysisError("resolver result sites: only %d found" % inst)
+    return inst, out
